@@ -406,8 +406,24 @@ class PaneOptions:
         return dataclasses.replace(self, **{k: v for (k, v) in changes.items() if v is not None})
 
 
-@functools.lru_cache(maxsize=256)
+def _type_key(ty: t.Any) -> t.Any:
+    # structural key of a type which, unlike typing's equality, keeps the order of union members
+    args = t.get_args(ty)
+    if not len(args):
+        return ty
+    return (t.get_origin(ty), tuple(
+        tuple(_type_key(a) for a in arg) if isinstance(arg, list) else _type_key(arg)
+        for arg in args
+    ))
+
+
 def _make_subclass(cls: t.Any, params: t.Tuple[t.Any, ...]) -> type:
+    # `Union[int, float] == Union[float, int]`, but the two convert differently: don't share a cached subclass
+    return _make_subclass_cached(cls, params, tuple(_type_key(p) for p in params))
+
+
+@functools.lru_cache(maxsize=256)
+def _make_subclass_cached(cls: t.Any, params: t.Tuple[t.Any, ...], key: t.Any) -> type:
     sup: t.Any = super(PaneBase, cls)
     if not hasattr(sup, '__class_getitem__'):
         raise TypeError(f"type '{cls}' is not subscriptable")
